@@ -18,6 +18,7 @@ import IrVerif.Drive.Layout
 import IrVerif.Drive.Journal
 import IrVerif.Drive.Serde
 import IrVerif.Drive.Scope
+import IrVerif.Drive.ScopeMeta
 import IrVerif.Drive.SymExpr
 import IrVerif.Drive.SymExprSympy
 import IrVerif.Drive.Inline
@@ -30,6 +31,7 @@ def handlers : List Handler := [
   IrVerif.Drive.SymExpr.handle,
   IrVerif.Drive.SymExprSympy.handle,
   IrVerif.Drive.Scope.handle,
+  IrVerif.Drive.ScopeMeta.handle,
   IrVerif.Drive.Serde.handle,
   IrVerif.Drive.Clone.handle,
   IrVerif.Drive.Kernel.handle,
